@@ -360,6 +360,23 @@ class Facts:
         nb_.inlined = sorted({callee_of(t) for _, t in targets})
         return nb_
 
+    def absorbed(self, nname):
+        """a helper whose body is spliced into (all of) its callers' views: path rules must not look at it on its own"""
+        if not self.inlinable(nname):
+            return False
+        callers = [b for b, _, _ in self.call_sites(nname)]
+        return bool(callers) and all(c.kind in ("fn", "assoc") or "::{closure#" in c.nname for c in callers)
+
+    def view_bodies(self):
+        """the bodies path rules iterate over: the inlined view of every non-promoted body that is not itself absorbed into
+        its callers (so a construct moved into a new helper is seen once, inside its owner, with the owner's context)"""
+        r = []
+        for b in self.all_bodies():
+            if self.absorbed(b.nname):
+                continue
+            r.append(self.body(b.nname))
+        return r
+
     def inlined_helpers(self):
         return sorted({h for v in self._views.values() for h in getattr(v, "inlined", [])})
 
@@ -387,6 +404,15 @@ class Facts:
             for bb, t in b.calls():
                 c = callee_of(t)
                 if c == callee or (not exact and callee in c) or callee_path(t) == callee:
+                    r.append((b, bb, t))
+        return r
+
+    def view_call_sites(self, callee):
+        """call sites as the path rules see them: in the inlined views, so a site moved into a private helper appears in its caller(s)"""
+        r = []
+        for b in self.view_bodies():
+            for bb, t in b.calls():
+                if callee_of(t) == callee or callee_path(t) == callee:
                     r.append((b, bb, t))
         return r
 
